@@ -10,6 +10,11 @@ the default passes (public custom-Elaborator API), public io before/after each p
 output is a process that builds the same design and makes ONLY that call, under the DEFAULT elaborator.
 Coq (Corr/C07.v) replays the history through the pass-manager model (Model/C07PassMgr.v) and returns per case
 0 | code + 10*(call+1).
+
+Strengthening round: modules may hold names that flattened bundle ports have to dodge (flavour bits 32/64/128) and may be
+NAMESAKES of other modules (flav >> 8); `ADDX` = add()/setattr variants that re-use names, a refused attempt must leave the
+module unchanged; per bundle-flattening visit the module before / after the body is compared with the flattening-names
+model (Model/C07FlatNames.v); coverage targets are measured from the implementation's reports and fail closed.
 """
 import json, itertools, subprocess
 from concurrent.futures import ThreadPoolExecutor
